@@ -3,5 +3,6 @@ CONSTANTS
   NW = 2
   K = 2
   PerThread = TRUE
+  Shape = "seedDraw"
 CONSTRAINT Emit
 CHECK_DEADLOCK FALSE
